@@ -1045,7 +1045,14 @@ fn check(ctx: &Ctx) -> i32 {
     });
 
     if thorough {
-        // all ordered triples without repetition whose relatedness graph is connected
+        // all ordered triples without repetition whose relatedness graph is connected; one URL per
+        // host and the two network sides that can differ (the longer URL form and the unrelated
+        // generichide rule are covered by the sweep above)
+        let pages3 = build_pages(false);
+        let eff_table3: Vec<Vec<Eff>> = pages3.iter().map(|p| rules.iter().map(|r| eff(r, p)).collect()).collect();
+        let ghs3 = [0usize, 1];
+        ctx.bound("triples_page_urls", pages3.len());
+        ctx.bound("triples_network_sides", json!([GH_RULES[0], GH_RULES[1]]));
         ctx.par_range("connected-triples", n * n, 8, |ij, l| {
             let (i, j) = ((ij / n) as usize, (ij % n) as usize);
             if i == j {
@@ -1062,16 +1069,16 @@ fn check(ctx: &Ctx) -> i32 {
                 }
                 let idx = [i, j, k];
                 let rs = [&rules[i], &rules[j], &rules[k]];
-                let effs = effs_of(&idx);
+                let effs: Vec<Vec<Eff>> = eff_table3.iter().map(|row| idx.iter().map(|&i| row[i]).collect()).collect();
                 l.count("connected_triples", 1);
-                check_list(&rs, &effs, &pages, &ghs, &res, l, None);
+                check_list(&rs, &effs, &pages3, &ghs3, &res, l, None);
             }
         });
     }
 
     ctx.finish(
         "model_checking",
-        "every ordered list without repetition of <= 2 rules (thorough: plus every ordered triple whose rules are connected by a shared location form / body / blanket +js()) of the alphabet {36 location forms x 10 bodies x ##/#@#, minus documented-invalid forms} x 3 network sides (none, @@||example.com^$generichide, unrelated generichide) x page URLs; every (list, side, page) runs url_cosmetic_resources on a freshly built engine with scriptlets s1 (function style) and s2 (template) and compares hide_selectors, procedural_actions (as JSON values), exceptions, generichide, the multiset of try-blocks and the text before them; non-trivial = some rule of the list covers or is excepted/negated for the page host, or a generic selector is returned; states = engines built, transitions = queries",
+        "every ordered list without repetition of <= 2 rules (thorough: plus every ordered triple whose rules are connected by a shared location form / body / blanket +js()) of the alphabet {36 location forms x 10 bodies x ##/#@#, minus documented-invalid forms} x 3 network sides (none, @@||example.com^$generichide, unrelated generichide; triples: the first two) x page URLs (13 hosts; thorough pairs: two URL forms per host); every (list, side, page) runs url_cosmetic_resources on a freshly built engine with scriptlets s1 (function style) and s2 (template) and compares hide_selectors, procedural_actions (as JSON values), exceptions, generichide, the multiset of try-blocks and the text before them; non-trivial = some rule of the list covers or is excepted/negated for the page host, or a generic selector is returned; states = engines built, transitions = queries",
         &[
             "addr::psl's public suffix data is trusted (used by both sides); idna::domain_to_ascii is trusted for the IDN host",
             "a negated location is read as an exception for that location (uBO reading; the source documents it); where that reading and 'the rule just does not cover the host' differ — another rule or an unscoped rule provides the same body for the host — that body is Unspecified (left out of the comparison; the rest of the answer is compared)",
